@@ -171,6 +171,7 @@ class CrashInjector:
 class _Capture:
     def __init__(self):
         self.molecule = None
+        self.at_writer = None
 
 
 def _snapshot_molecule(mol):
@@ -247,8 +248,20 @@ def op_gen_params(op, root, opdir, cap):
     real_write = vermouth.gmx.itp.write_molecule_itp
 
     def capture_write(molecule, *a, **k):
-        cap.molecule = _snapshot_molecule(molecule)
+        cap.at_writer = _snapshot_molecule(molecule)
+        if cap.molecule is None:
+            cap.molecule = cap.at_writer
         return real_write(molecule, *a, **k)
+
+    # "the molecule that was built" = what the processor pipeline hands over: gen_params asks find_missing_edges
+    # about it right after the last processor
+    real_fme = gi.find_missing_edges
+
+    def capture_fme(res_graph, molecule):
+        cap.molecule = _snapshot_molecule(molecule)
+        return real_fme(res_graph, molecule)
+
+    gi.find_missing_edges = capture_fme
 
     real_listdir = ll.os.listdir
     perm_seed = op.get("listdir_perm")
@@ -281,6 +294,7 @@ def op_gen_params(op, root, opdir, cap):
             gi.gen_params(**kw)
     finally:
         vermouth.gmx.itp.write_molecule_itp = real_write
+        gi.find_missing_edges = real_fme
         ll.os = old_os
         ll.DATA_PATH = old_data
 
